@@ -16,7 +16,19 @@ def check(chk, thorough=False):
     chk.run('C06.b', 'R-ORDER', 're-injection and table deletion happen only once coverage equals [0,total); coverage only grows by the spliced range', lambda ob: c06b(tree, ob), floor=4)
     chk.run('C06.c', 'R-FLOW', 'buffer splice and coverage interval use the same bounds: the fragment own offset and offset + len(data)', lambda ob: c06c(tree, ob), floor=3)
     chk.run('C06.d', 'R-PAIR', 'one re-injection site; the fragment itself is withdrawn from delivery on every path; the synthesized bundle goes through the normal receive path', lambda ob: c06d(tree, ob), floor=3)
+    chk.run('C06.f', 'R-ORDER', 'fragments and the re-injected bundle pass the receive gates: CRC gate on the whole failing set, unbounded seen-identity set, add before processing (= C08.b, C10.a)', lambda ob: (_c08b(tree, ob), c10a(tree, ob)), floor=8)
+    chk.run('C06.g', 'sibling', 'checking a block CRC leaves the block as it was (blocks of the first fragment are copied into the reassembled bundle after they were checked) (= C08.c)', lambda ob: _c08c(tree, ob), floor=8)
     chk.run('C06.e', 'R-GUARD', 'first_frag only from offset 0; the synthesized bundle copies its primary and blocks, clears the fragment flag and replaces only the payload data', lambda ob: c06e(tree, ob), floor=5)
+
+
+def _c08b(tree, ob):
+    from .c08 import c08b
+    return c08b(tree, ob)
+
+
+def _c08c(tree, ob):
+    from .c08 import c08c
+    return c08c(tree, ob)
 
 
 def c06a(tree, ob):
